@@ -58,17 +58,8 @@ def canHandle (p : Bytes) : Bool := helloOpen.isPrefixOf p && helloClose.isSuffi
 /-- `received_bytes[7:-8]` -/
 def content (p : Bytes) : Bytes := (p.take (p.length - 8)).drop 7
 
-/-- `bytes.split(b"|")` -/
-def splitBar : Bytes → List Bytes
-  | [] => [[]]
-  | b :: rest =>
-    if b = bar then [] :: splitBar rest
-    else match splitBar rest with
-      | [] => [[b]]
-      | h :: t => (b :: h) :: t
-
 inductive HelloErr where
-  | valueErr    -- `self._spa_identifier, spa_name = content.split(b"|")`: not exactly two parts
+  | valueErr    -- `self._spa_identifier, spa_name = content.split(b"|", 1)` on a content without `|`: one part to unpack
   | assertErr   -- `handler.spa_identifier` on a hello that carried no spa identifier
 deriving Repr, DecidableEq
 
